@@ -256,11 +256,13 @@ def json_decoder(obj_dict: dict[str, Any]) -> dict[str, Any] | Object | Alias | 
         An instance of a data class.
     """
     # Load expressions.
-    if "cls" in obj_dict:
+    # The class name is a string: a dictionary of members can have a `cls` key too, its value is an object.
+    if isinstance(obj_dict.get("cls"), str):
         return _load_expression(obj_dict)
 
     # Load objects and parameters.
-    if "kind" in obj_dict:
+    # Same here: the value is a string, unlike the member named `kind` of a dictionary of members.
+    if isinstance(obj_dict.get("kind"), str):
         try:
             kind = Kind(obj_dict["kind"])
         except ValueError:
